@@ -12,6 +12,11 @@ from .terms import (V, Const, Sym, App, TupleV, DictV, Obj, ClassV, FuncV, Bound
 from .loader import AnalysisError, stmt_text
 
 
+class LoopNotUnrollable(Exception):
+    """A loop over something other than a sequence of known length was reached while a
+    function with loops was being inlined tentatively; the caller falls back to an opaque call."""
+
+
 class State(object):
     __slots__ = ("heap", "pc", "log", "approx", "ctor_pc")
 
@@ -233,6 +238,8 @@ class Policy(object):
             return "inline"
         if c == "leaf" and all(_is_closed(a) for a in args):
             return "inline"      # constant folding of the program's own constants
+        if c == "loop":
+            return "try"         # inline if every loop can be unrolled, else opaque
         return "opaque"
 
 
@@ -845,6 +852,13 @@ class Ev(object):
             return None
         cur = env["locals"][name]
         meth = n.func.attr
+        if is_app(cur, "sha256obj") and meth == "update" and len(n.args) == 1 and name not in env.get("params", ()):
+            out = []
+            for s2, args in self._seq(n.args, env, st):
+                prev = cur.args[0] if cur.args else Const(b"")
+                env["locals"][name] = App("sha256obj", (mk_app("cat", (prev, args[0])),))   # h.update(x): h hashes prev || x
+                out.append((s2, NONE))
+            return out
         if not isinstance(cur, (TupleV, DictV)) or (isinstance(cur, TupleV) and cur.kind == "tuple"):
             return None
         if env.get("toplevel") is None and name in env.get("params", ()):
@@ -1076,6 +1090,19 @@ class Ev(object):
             mode = "opaque" if f.qual in self.active else "inline"
         if mode == "inline" and self.depth >= self.maxdepth:
             raise AnalysisError("call depth budget exceeded at %s" % f.qual)
+        if mode == "try":
+            if self.loop_mode == "once" or self.depth >= self.maxdepth - 2:
+                mode = "opaque"
+            else:
+                mark_r, mark_c, depth0, active0 = len(self.raised), len(self.continues), self.depth, len(self.active)
+                try:
+                    return self._invoke(f, args, kw, st.fork(), site, force_inline=True)
+                except LoopNotUnrollable:
+                    del self.raised[mark_r:]
+                    del self.continues[mark_c:]
+                    self.depth = depth0
+                    del self.active[active0:]
+                    mode = "opaque"
         if mode != "inline":
             st.log.append(("opaque-call", f, ordered, site))
             call = App("fn:" + f.qual, ordered)
@@ -1393,8 +1420,7 @@ class Ev(object):
     # -- loops: only in 'once' mode, one symbolic iteration (DESIGN 3.4)
     def _loop_once(self, n, env, st, bind):
         if self.loop_mode != "once":
-            raise AnalysisError("%s:%d: loop reached by inlined evaluation (function should be opaque)"
-                                % (env["mod"].relpath, n.lineno))
+            raise LoopNotUnrollable("%s:%d" % (env["mod"].relpath, n.lineno))
         e2 = self._cp(env)
         bind(e2)
         st.approx.append((self.site(n, env), "loop body evaluated for one symbolic iteration"))
@@ -1424,7 +1450,36 @@ class Ev(object):
     def s_For(self, n, env, st):
         out = []
         site = self.site(n, env)
-        for s1, it in self.expr(n.iter, env, st):
+        iters = self.expr(n.iter, env, st)
+        if all(isinstance(it, TupleV) for _, it in iters) and iters:
+            # a loop over a sequence of known length is unrolled
+            for s1, it in iters:
+                paths = [Path(s1, "normal", self._cp(env))]
+                for item in it.items:
+                    nxt = []
+                    for p in paths:
+                        if p.kind != "normal":
+                            nxt.append(p)
+                            continue
+                        e2 = self._cp(p.val)
+                        self.assign(n.target, item, e2, p.st, site)
+                        for q in self.block(n.body, e2, p.st):
+                            if q.kind == "continue":
+                                nxt.append(Path(q.st, "normal", q.val))
+                            else:
+                                nxt.append(q)
+                    paths = nxt
+                    if len(paths) > self.maxpaths:
+                        raise AnalysisError("path budget exceeded while unrolling the loop at %s:%d" % (site[0], site[1]))
+                for p in paths:
+                    if p.kind == "break":
+                        out.append(Path(p.st, "normal", p.val))
+                    elif p.kind == "normal" and n.orelse:
+                        out += self.block(n.orelse, p.val, p.st)
+                    else:
+                        out.append(p)
+            return out
+        for s1, it in iters:
             def bind(e, it=it, s1=s1):
                 self.assign(n.target, App("iter-elem", [it]), e, s1, site)
             out += self._loop_once(n, env, s1, bind)
@@ -1571,7 +1626,10 @@ class Ev(object):
             st = self.import_all().fork()
         self.fuel = self.fuel0          # budget per entry point
         mark = len(self.raised)
-        outs = self.call(f, tuple(args), tuple(kw), st, site)
+        try:
+            outs = self.call(f, tuple(args), tuple(kw), st, site)
+        except LoopNotUnrollable as e:
+            raise AnalysisError("%s: loop over an unknown sequence reached by inlined evaluation" % e)
         res = list(outs)
         for (s, e, rsite) in self.raised[mark:]:
             res.append(Outcome("raise", e, s, rsite))
